@@ -27,6 +27,61 @@ type c15Case struct {
 	Two   bool         `json:"two,omitempty"` // enumerate a second fault in the recovery run
 	K2    int          `json:"k2,omitempty"`
 	Kind2 int          `json:"kind2,omitempty"`
+	// CLIErr > 0: the built binary on a native directory in which the artifact of entity CLIErr-1 cannot be written
+	// (a directory stands in its place): the process reports failure; once the obstacle is gone the next run repairs
+	CLIErr int `json:"cliErr,omitempty"`
+}
+
+func c15CLIWriteError(x *engine.Ctx, c *c15Case) {
+	names := []string{"root", "sub", "leaf"}
+	d := &Dir{}
+	for i, n := range names {
+		cfg := &refcfg.CertCfg{Path: n + ".yaml", Subject: "CN=" + n, KeyAlg: "P-224"}
+		if i > 0 {
+			cfg.Issuer = names[i-1]
+		}
+		d.Certs = append(d.Certs, cfg)
+	}
+	w := simfs.New(simfs.TickPerWrite)
+	d.Render(w)
+	victim := names[c.CLIErr-1]
+	w.Put(victim+".pem/placeholder.txt", []byte("a directory where the artifact belongs\n"))
+	x.Nontrivial(fmt.Sprintf("cli-write-error %d", c.CLIErr))
+	res, err := drive.RunCLI(w, drive.Default, "y\n")
+	if err != nil {
+		x.Cap("cli: " + err.Error())
+		return
+	}
+	x.TraceValidated(1)
+	if res.Exit == 0 {
+		x.Violation("C15/write-error-reported-as-success/cli", fmt.Sprintf("the artifact of %s cannot be written (a directory stands in its place), yet the process ended with exit status 0: %s", victim, short(res.Stdout+res.Stderr, 300)))
+	}
+	w.Remove(victim + ".pem/placeholder.txt")
+	res, err = drive.RunCLI(w, drive.Default, "y\n")
+	if err != nil {
+		x.Cap("cli: " + err.Error())
+		return
+	}
+	x.TraceValidated(1)
+	if res.Exit != 0 {
+		x.Violation("C15/recovery-run-failed/cli after-write-error", fmt.Sprintf("exit %d: %s", res.Exit, short(res.Stdout+res.Stderr, 300)))
+		return
+	}
+	var prev *Artifact
+	for _, cfg := range d.Certs {
+		a := ReadArtifact(w, cfg.Path)
+		if a.Cert == nil || a.Key == nil {
+			x.Violation("C15/after-recovery/incomplete/cli after-write-error", fmt.Sprintf("%s: certificate=%v key=%v", cfg.Path, a.Cert != nil, a.Key != nil))
+			return
+		}
+		if prev != nil {
+			if err := VerifyChainLink(a.Cert, prev.Cert); err != nil {
+				x.Violation("C15/after-recovery/chain/cli after-write-error", fmt.Sprintf("%s: %v", cfg.Path, err))
+			}
+		}
+		prev = a
+	}
+	x.Outcome("cli write error reported, repaired by the next run")
 }
 
 var c15Histories = []string{"initial run", "settled + edit root subject", "settled + edit sub subject", "settled + edit leaf subject", "settled + strip root key", "settled + generate-all", "settled + profile edit"}
@@ -89,6 +144,9 @@ func c15Before(c *c15Case) (*hstate, int, error) {
 }
 
 func c15Enumerate(tier string, yield func(any)) {
+	for e := 1; e <= 3; e++ {
+		yield(&c15Case{CLIErr: e})
+	}
 	step := 32
 	if tier == "thorough" {
 		step = 1
@@ -142,6 +200,10 @@ func c15Faults(k, kind, step int) []simfs.Fault {
 
 func c15Exec(x *engine.Ctx, cc any) {
 	c := cc.(*c15Case)
+	if c.CLIErr > 0 {
+		c15CLIWriteError(x, c)
+		return
+	}
 	base, strat, err := c15Before(c)
 	if err != nil {
 		x.Violation("C15/setup-failed", err.Error())
@@ -306,7 +368,7 @@ func init() {
 	register(&engine.Check{
 		ID:          "C15",
 		Level:       "fault_enumeration",
-		Rule:        "2 hierarchies (root->sub->leaf; root->{sub->leaf, sub2} with sub2 under an explicit alias in a sub-directory and leaf in a dotted sub-directory, all under a key-id profile) x 7 histories (initial run; settled + edit root / sub / leaf subject; settled + strip root key; settled + generate-all; settled + profile edit) x 2 clock modes: in the faulted run every write k (all writes of the run) x outcome {error without write, error after a prefix, process death after a prefix, death right after the complete write}; prefix lengths = each PEM-block boundary (hash line, certificate, key) -1/0/+1 and every 32nd byte (quick) / every byte offset for the 3-tier chain with per-write ticks and every 8th byte for the other hierarchy/clock combinations (thorough) of the ~1.2 kB file; two-fault sequences (any fault of the block-boundary alphabet at any write of the recovery run, then a clean run). Oracle: an injected write error makes the run return an error; the next default run succeeds without panic; afterwards every entity has exactly one certificate and key, every certificate verifies under its issuer with byte-equal DN, matches its configuration (reference translation) and its key; a further run is a no-op. non-trivial = fault points reached (distinct by construction)",
+		Rule:        "2 hierarchies (root->sub->leaf; root->{sub->leaf, sub2} with sub2 under an explicit alias in a sub-directory and leaf in a dotted sub-directory, all under a key-id profile) x 7 histories (initial run; settled + edit root / sub / leaf subject; settled + strip root key; settled + generate-all; settled + profile edit) x 2 clock modes: in the faulted run every write k (all writes of the run) x outcome {error without write, error after a prefix, process death after a prefix, death right after the complete write}; prefix lengths = each PEM-block boundary (hash line, certificate, key) -1/0/+1 and every 32nd byte (quick) / every byte offset for the 3-tier chain with per-write ticks and every 8th byte for the other hierarchy/clock combinations (thorough) of the ~1.2 kB file; two-fault sequences (any fault of the block-boundary alphabet at any write of the recovery run, then a clean run). Oracle: an injected write error makes the run return an error; the next default run succeeds without panic; afterwards every entity has exactly one certificate and key, every certificate verifies under its issuer with byte-equal DN, matches its configuration (reference translation) and its key; a further run is a no-op. non-trivial = fault points reached (distinct by construction); and the built binary on a native directory where the artifact of the root, the intermediate or the leaf cannot be written (a directory stands in its place): exit status non-zero, and once the obstacle is removed the next run completes the chain",
 		Bound:       map[string]string{"crash model": "prefixes of a single in-place write (open+truncate+write, no fsync/rename)", "fault sequences": "<=2"},
 		Assumptions: []string{"post-power-loss block reordering and concurrent gopki processes are not modelled"},
 		Budget:      budgets(quickBudget, thoroughBudget),
